@@ -214,4 +214,124 @@ def run(chk):
                         "get_type / contain_qubit_ty are abstracted to an attribute of the argument node (which arguments are quantum is an input of the obligation)",
                         "ENGINE.get_parsed(def_id).ty is a lookup table of callee types"]
     chk.not_covered += ["with-block contexts (modifier_checker) feed the same check_cfg_unitary with ModifiedBlock.flags (C25)", "loops inside with-dagger blocks"]
+    qubit_finder(chk)
     chk.use_engine(e)
+
+
+def qubit_finder(chk):
+    """contain_qubit_ty / QubitFinder (tys/qubit.py) on REAL type objects: the answer is True exactly
+    when the qubit type occurs anywhere in the type — at the top, as a type argument, or below any
+    number of tuple / array-like / generic containers; a function value carries none.  (The unitary
+    checker only compares flags for calls whose arguments `contain a qubit`.)"""
+    import itertools
+    Q = "guppylang_internals.tys.qubit"
+    TYM_ = "guppylang_internals.tys.ty"
+    e = mk_engine(chk)
+    for q in ("contain_qubit_ty", "QubitFinder.visit", "QubitFinder._visit_OpaqueType", "QubitFinder._visit_TypeArg", "is_qubit_ty"):
+        try:
+            e.func_info(Q, q)
+        except KeyError:
+            pass
+    e.func_info(TYM_, "ParametrizedTypeBase.visit")
+    e.func_info(TYM_, "FunctionType.visit")
+
+    # type shapes: nested tuples over leaves Q (qubit), I (int), O (another opaque type), A[..] an
+    # array-like opaque container with one type argument and one constant argument
+    def shapes(depth):
+        if depth == 0:
+            return ["Q", "I", "O"]
+        sub = shapes(depth - 1)
+        out = list(sub)
+        for a in sub:
+            out.append(("A", a))
+            out.append(("T", a))
+        for a, b in itertools.product(sub[:6], repeat=2):
+            out.append(("T", a, b))
+        return out
+    all_shapes = []
+    for sh in shapes(2) + [("T", ("A", ("T", "I", ("A", "Q"))), "I"), ("A", ("A", ("A", "Q"))), ("A", ("A", ("A", "I"))), ("F", ("A", ("A", "Q")), "I"), ("F", "I", ("T", "I", ("A", "Q"))), ("F", "I", "O")]:
+        if sh not in all_shapes:
+            all_shapes.append(sh)
+    if chk.tier != "thorough":
+        all_shapes = [sh for i, sh in enumerate(all_shapes) if i < 40 or i % 5 == 0 or isinstance(sh, tuple) and sh[0] == "F"]
+
+    def has_q(sh):
+        # a function VALUE carries no qubits, whatever its signature mentions
+        return sh == "Q" or (isinstance(sh, tuple) and sh[0] != "F" and any(has_q(x) for x in sh[1:]))
+
+    def show(sh):
+        if isinstance(sh, str):
+            return {"Q": "qubit", "I": "int", "O": "opaque"}[sh]
+        return {"A": "array", "T": "tuple", "F": "fn"}[sh[0]] + "[" + ", ".join(show(x) for x in sh[1:]) + "]"
+    n = 0
+    for sh in all_shapes:
+        def t(it, sh=sh):
+            m = e.module(TYM_)
+            OT, TT, NT, FT, FI = (it.lookup_global(m, k) for k in ("OpaqueType", "TupleType", "NumericType", "FunctionType", "FuncInput"))
+            IF = it.lookup_global(m, "InputFlags")
+            TA = it.lookup_global(e.module("guppylang_internals.tys.arg"), "TypeArg")
+            CA = it.lookup_global(e.module("guppylang_internals.tys.arg"), "ConstArg")
+            qdef = SObj(ClassVal("OpaqueTypeDef", builtin=True), {"name": "qubit", "never_copyable": True, "never_droppable": True, "bound": None})
+            odef = SObj(ClassVal("OpaqueTypeDef", builtin=True), {"name": "other", "never_copyable": False, "never_droppable": False, "bound": None})
+            adef = SObj(ClassVal("OpaqueTypeDef", builtin=True), {"name": "array", "never_copyable": True, "never_droppable": False, "bound": None})
+            qubit = it.call(OT, [[], qdef], {})
+            e.models[f"{Q}:qubit_ty"] = lambda it2, a, k: qubit
+
+            def build(x):
+                if x == "Q":
+                    return it.call(OT, [[], qdef], {})          # an equal, not identical, qubit type
+                if x == "I":
+                    return it.call(NT, [it.getattr(it.getattr(NT, "Kind"), "Int")], {})
+                if x == "O":
+                    return it.call(OT, [[], odef], {})
+                if x[0] == "A":
+                    return it.call(OT, [[it.call(TA, [build(x[1])], {}), SObj(CA, {"const": SObj(ClassVal("ConstValue", builtin=True), {"value": 2})})], adef], {})
+                if x[0] == "T":
+                    return it.call(TT, [[build(y) for y in x[1:]]], {})
+                ins = [it.call(FI, [build(x[1]), it.getattr(IF, "NoFlags")], {})]
+                return it.call(FT, [ins, build(x[2])], {})
+            return it.call(it.lookup_global(e.module(Q), "contain_qubit_ty"), [build(sh)], {})
+        paths = e.explore(t)
+        chk.prove_paths(f"contain_qubit_ty[{show(sh)}]=={has_q(sh)}", paths, lambda p, sh=sh: z3.BoolVal(p.kind == "return" and p.value is has_q(sh)), func=f"{Q}:contain_qubit_ty",
+                        replay=lambda m_, sh=sh: {"script": REPLAY_QUBIT_TY, "input": {"ty": show(sh).replace("opaque", "float").replace("fn[", "Callable[[").replace("array[", "array[").replace("]", "]")}} if "fn" not in show(sh) else None)
+        n += 1
+    chk.record("contain_qubit_ty:shapes-explored", n >= 40, str(n), kind="reachability")
+    e.models.pop(f"{Q}:qubit_ty", None)
+    chk.use_engine(e)
+
+
+REPLAY_QUBIT_TY = r'''
+import re, tempfile, importlib.util, os, sys, shutil
+I = INPUT
+ann = re.sub(r"array\[(.*?)\]", lambda m: m.group(0), I["ty"])
+def arr(s):
+    # array[X] -> array[X, 2]   (innermost first)
+    out, depth = "", []
+    i = 0
+    while i < len(s):
+        if s.startswith("array[", i): depth.append("a"); out += "array["; i += 6; continue
+        if s.startswith("tuple[", i): depth.append("t"); out += "tuple["; i += 6; continue
+        if s[i] == "]":
+            k = depth.pop(); out += ", 2]" if k == "a" else "]"; i += 1; continue
+        out += s[i]; i += 1
+    return out
+src = f"""from guppylang import guppy
+from guppylang.std.builtins import array
+from guppylang.std.quantum import qubit
+@guppy.declare
+def use(x: {arr(I['ty'])}) -> None: ...
+"""
+d = tempfile.mkdtemp(dir=os.environ.get("TMPDIR", "/var/tmp")); fn = os.path.join(d, "replay_c24q.py"); open(fn, "w").write(src)
+spec = importlib.util.spec_from_file_location("replay_c24q", fn); m = importlib.util.module_from_spec(spec); sys.modules["replay_c24q"] = m
+try:
+    spec.loader.exec_module(m)
+    from guppylang_internals.engine import ENGINE
+    from guppylang_internals.tys.qubit import contain_qubit_ty
+    ty = ENGINE.get_checked(m.use.id).ty.inputs[0].ty
+    got = contain_qubit_ty(ty); want = "qubit" in I["ty"]
+    out = {"violates": got != want, "type": str(ty), "contain_qubit_ty": got, "required": want}
+except Exception as ex:
+    out = {"violates": False, "error": repr(ex)[:300]}
+shutil.rmtree(d, ignore_errors=True)
+print(json.dumps(out))
+'''
